@@ -127,7 +127,13 @@ pub fn read_fastq(src: Source, variant: u8, items: &mut Vec<String>) -> io::Resu
 
 pub fn read_gff(src: Source, variant: u8, items: &mut Vec<String>) -> io::Result<()> {
     let mut r = gff::io::Reader::new(src.into_buf());
-    match variant % 2 {
+    if variant % 3 == 2 {
+        for line in r.line_bufs() {
+            items.push(format!("B|{:?}", line?));
+        }
+        return Ok(());
+    }
+    match variant % 3 {
         0 => {
             for line in r.lines() {
                 let line = line?;
